@@ -28,7 +28,7 @@ impl ICase {
             s.push_str(if i == 0 { " " } else { ", " });
             if i == n - 1 && is_relative(self.mnem) {
                 if let Opnd::Imm(d) = o {
-                    let k = d + 1;
+                    let k = *d as i128 + 1;
                     if k >= 0 {
                         s.push_str(&format!("pc+{}", k));
                     } else {
